@@ -281,9 +281,16 @@ func drawCRLSpec(rt *rapid.T, label string, number int64) crlSpec {
 // stored bundles are distinguishable.
 func drawBundle(rt *rapid.T, counter *int64) bundleSpec {
 	*counter += 2
-	b := bundleSpec{Base: drawCRLSpec(rt, "base", *counter)}
+	// CRL numbers are the issuer's business: what is stored later may carry a lower number than
+	// what was stored before (a CA that restarted its numbering, a mirror serving an older CRL).
+	// "down" numbers descend from a million, "up" numbers ascend from ten: all distinct
+	n := *counter
+	if rapid.IntRange(0, 2).Draw(rt, "numbering") == 0 {
+		n = 1000000 - *counter
+	}
+	b := bundleSpec{Base: drawCRLSpec(rt, "base", n)}
 	if rapid.IntRange(0, 9).Draw(rt, "hasDelta") < 6 {
-		d := drawCRLSpec(rt, "delta", *counter+1)
+		d := drawCRLSpec(rt, "delta", n+1)
 		b.Delta = &d
 	}
 	return b
